@@ -1,6 +1,6 @@
 (* Properties_C07.v -- C07: placement rules (deny/allow/naming/siblings) flag exactly the offending
    entries.  Property theorems only; each is closed by [exact <lemma>] and followed by Print Assumptions.
-   Model: Structure/{Placement,Siblings}.v (the code after fixes/D06-placement-last-match.patch, D48, D49, D51);
+   Model: Structure/{Placement,Siblings}.v (the code after fixes/D06-placement-last-match.patch, D48, D49, D51, D81);
    what is required: Structure/Spec.v (forbidden_spec: the documented ladder, evaluated for the rule
    explain names).  Every glob / regex answer is an arbitrary oracle column, so the statements hold for
    every glob and regex semantics; no bound on names, trees or rule lists. *)
@@ -218,6 +218,51 @@ Theorem C07_rule_consulted_is_explains : forall cfg sc rcs,
   option_map (fun x => fst (fst x)) (find_rule cfg sc rcs) = ex_matched (explain cfg sc).
 Proof. exact rule_consulted_is_explains. Qed.
 Print Assumptions C07_rule_consulted_is_explains.
+
+(* fixes/D81: the sibling entries applied to a file are those of the rule explain names for the file's directory
+   (last declared match) and of no other rule: every sibling report carries that rule, a directory for which
+   explain names no rule has no sibling requirement, and all entries of the named rule are applied.  Sibling
+   entries do not accumulate over the matching rules: a matching rule declared earlier is superseded as a whole,
+   like its limits and its allow/deny lists *)
+Theorem C07_sibling_rule_is_explains : forall cfg files e v,
+  In v (sibling_entry cfg files e) ->
+  exists i, v_rule v = Some (RRule i) /\ ex_matched (explain cfg (e_plim e)) = Some i /\ v_path v = e_path e.
+Proof. exact sibling_rule_is_explains. Qed.
+Print Assumptions C07_sibling_rule_is_explains.
+
+Theorem C07_sibling_none_without_rule : forall cfg files e,
+  ex_matched (explain cfg (e_plim e)) = None -> sibling_entry cfg files e = [].
+Proof. exact sibling_none_without_rule. Qed.
+Print Assumptions C07_sibling_none_without_rule.
+
+Theorem C07_sibling_entries_of_named_rule : forall files e rs cols k n r,
+  (forall j, nth_error (map fst rs) j = Some k -> j = n) ->
+  nth_error rs n = Some (k, r) ->
+  sibling_rules files e rs cols k = sibling_rule files e k (sr_siblings r) (nth n cols []).
+Proof. exact sibling_rules_select. Qed.
+Print Assumptions C07_sibling_entries_of_named_rule.
+
+(* the D81 witness: rule 0 (scope src/STAR-STAR) requires {stem}.spec next to every .ts file, rule 1 (scope
+   src/components) only sets max_files.  In src/components both scopes match, explain names rule 1, and a.ts
+   needs no companion; where only rule 0 matches a.ts is reported by rule 0.  Before the repair the entries of
+   every matching rule were applied (sibling_rules_accumulating): a.ts was reported by the superseded rule 0 *)
+Definition t_spec : str := [123; 115; 116; 101; 109; 125; 46; 115; 112; 101; 99]%N.
+Definition r_sib_ts : srule := mk_srule [115]%N None None None false None None None None None [] 0 0 0 [] 0 0 0 false
+  [SDirected false [t_spec] false].
+Definition r_max50 : srule := mk_srule [99]%N (Some 50) None None false None None None None None [] 0 0 0 [] 0 0 0 false [].
+Definition cfg_d81 : config := mk_config None None None None None None None None [] 0 0 [] 0 0 0 [r_sib_ts; r_max50].
+Definition cols_d81 : cols := mk_cols false false false false false false []
+  (mk_gcols false false None None None None None None) [rcols0; rcols0] [[true]; []].
+Definition p_ats : path := [[97; 46; 116; 115]%N; [99]%N].
+Definition e_ats (plim : list bool) : entry := mk_entry KFile p_ats 1 cols_d81 plim plim.
+Example C07_example_superseded_rule_has_no_siblings :
+  sibling_entry cfg_d81 [p_ats] (e_ats [true; true]) = [] /\
+  ex_matched (explain cfg_d81 [true; true]) = Some 1 /\
+  sibling_entry cfg_d81 [p_ats] (e_ats [true; false]) = [sv (e_ats [true; false]) (VMissingSibling t_spec) false 0] /\
+  sibling_rules_accumulating [p_ats] (e_ats [true; true]) (indexed (rules cfg_d81)) [true; true] [[true]; []]
+    = [sv (e_ats [true; true]) (VMissingSibling t_spec) false 0].
+Proof. vm_compute. repeat split; reflexivity. Qed.
+Print Assumptions C07_example_superseded_rule_has_no_siblings.
 
 (* ---- non-vacuity: the D6 witness (rule 0 scope ** denies .bin, rule 1 allows .bin in src/gen):
    for src/gen/x.bin both rules match; the LAST one is consulted and admits the file ---- *)
